@@ -11,8 +11,12 @@ EXTENDS Bytes
 FLAG == 126   \* 0x7E
 ESC  == 125   \* 0x7D
 
-Escape(p) == Flat([i \in 1..Len(p) |->
-                 IF p[i] = FLAG THEN <<ESC, 2>> ELSE IF p[i] = ESC THEN <<ESC, 1>> ELSE <<p[i]>>])
+\* linear-time formulations (a fold of \o is quadratic in TLC): build 2 slots per byte, drop the unused (-1)
+Keep(m) == SelectSeq(m, LAMBDA v : v # -1)
+Escape(p) == Keep([i \in 1..(2 * Len(p)) |->
+                 LET b == p[(i + 1) \div 2] IN
+                 IF i % 2 = 1 THEN (IF b = FLAG \/ b = ESC THEN ESC ELSE b)
+                 ELSE (IF b = FLAG THEN 2 ELSE IF b = ESC THEN 1 ELSE -1)])
 
 Framed(p) == <<FLAG>> \o Escape(p) \o <<FLAG>>
 \* the one tolerated deviation: checksum byte 7D sent unescaped
@@ -25,11 +29,11 @@ FramedRaw7D(p) == IF Len(p) > 0 /\ p[Len(p)] = ESC
 \* (written without recursion so that 1 KB frames need no deep stack: in a valid
 \* string every 7D is the first byte of a pair, or the raw last interior byte)
 UnescOk(f) == \A i \in 2..Len(f) - 2 : f[i] = ESC => f[i + 1] \in {1, 2}
-UnescVal(f) == Flat([i \in 1..Len(f) |->
-                 IF i = 1 \/ i = Len(f) THEN <<>>
-                 ELSE IF f[i] = ESC THEN (IF i = Len(f) - 1 THEN <<ESC>> ELSE <<>>)   \* raw 7D checksum
-                 ELSE IF i > 2 /\ f[i - 1] = ESC THEN <<(IF f[i] = 1 THEN ESC ELSE FLAG)>>
-                 ELSE <<f[i]>>])
+UnescVal(f) == Keep([i \in 1..Len(f) |->
+                 IF i = 1 \/ i = Len(f) THEN -1
+                 ELSE IF f[i] = ESC THEN (IF i = Len(f) - 1 THEN ESC ELSE -1)   \* raw 7D checksum
+                 ELSE IF i > 2 /\ f[i - 1] = ESC THEN (IF f[i] = 1 THEN ESC ELSE FLAG)
+                 ELSE f[i]])
 UnescFrom(f, i, acc) == IF UnescOk(f) THEN [ok |-> TRUE, v |-> UnescVal(f)] ELSE [ok |-> FALSE, v |-> <<>>]
 
 Unescape(f) == IF Len(f) > 2 /\ f[1] = FLAG /\ f[Len(f)] = FLAG
@@ -84,10 +88,10 @@ Decode(f) ==
 (* (Escape/Payload/Framed) and compare with the input.  Shares no check     *)
 (* with Decode; TLC checks the two agree (MC_Frame: Sound).                 *)
 IsPairStart(w, i) == w[i] = ESC /\ i < Len(w) /\ w[i + 1] \in {1, 2}
-Lenient(w) == Flat([i \in 1..Len(w) |->
-                 IF IsPairStart(w, i) THEN <<>>
-                 ELSE IF i > 1 /\ IsPairStart(w, i - 1) THEN <<(IF w[i] = 1 THEN ESC ELSE FLAG)>>
-                 ELSE <<w[i]>>])
+Lenient(w) == Keep([i \in 1..Len(w) |->
+                 IF IsPairStart(w, i) THEN -1
+                 ELSE IF i > 1 /\ IsPairStart(w, i - 1) THEN (IF w[i] = 1 THEN ESC ELSE FLAG)
+                 ELSE w[i]])
 
 ReadFields(p) ==
     IF Len(p) < 4 THEN [readable |-> FALSE] ELSE
